@@ -42,8 +42,9 @@ def run(repo: Repo, rep: Report):
     rep.rule("R-TS.reset-discards-edits", "TS2: the cache is not reset while it may hold unflushed edits")
     rep.rule("R-TS.exit-with-shadowing-cache", "TS3: a tree write under a populated cache is followed by reset/flush before normal exit")
     rep.rule("R-TS.lost-edit", "a shape obtained from the cache is not edited after the cache was emptied")
-    rep.rule("R-TS.primitive", "TS5: contracts of _update_etree / _clone / toetree")
-    rep.rule("R-RET.inplace", "in-place branch returns self; copying branch returns the clone it ran the same operation on, all parameters forwarded")
+    rep.rule("R-TS.primitive", "histories of 2-3 public operations interpreted on a schematic document (cache, functools memo and instance state modelled): the final serialisation equals the "
+                               "one obtained with a serialise / re-build between every two steps")
+    rep.rule("R-RET.inplace", "in the interpreted histories every in-place form returns the receiver; every copying form returns a new object and leaves the receiver's serialisation unchanged")
     ts = CacheTypestate(repo, pure_queries=PURE_QUERIES)
     methods = [m for m in ts.methods if not m.startswith("_") and m not in NOT_OPERATIONS]
     rep.floor("public methods of class SVG", len(methods), 30)
@@ -76,155 +77,8 @@ def run(repo: Repo, rep: Report):
     rep.call_sites += len(ts.events)
     rep.notes.append(f"typestate events evaluated: {len(ts.events)} (FLUSH/RESET/POPULATE/CACHE-WRITE/TREE-READ/TREE-WRITE occurrences over all entry methods and contexts)")
     rep.notes.append("tree-writing helpers inferred: " + ", ".join(sorted(w for w in ts.tw.writers if not w.startswith('SVG.'))))
-    _check_primitives(repo, rep, ts)
-    _check_ret(repo, rep, ts)
-
-
-def _check_primitives(repo, rep, ts):
-    svg = repo["svg"]
-    # _update_etree
-    fn = svg.func("SVG._update_etree")
-    F = "svg.SVG._update_etree"
-    rep.saw(F)
-    body = [s for s in fn.body if not (isinstance(s, ast.Expr) and isinstance(s.value, ast.Constant))]
-    txt = [unparse(s) for s in body]
-    ok_guard = bool(body) and isinstance(body[0], ast.If) and unparse(body[0].test) == "not self.elements" and isinstance(body[0].body[0], ast.Return)
-    if ok_guard:
-        rep.ok("R-TS.primitive", f"{F}: no-op when the cache is empty")
-    else:
-        rep.fail("R-TS.primitive", F, "if not self.elements: return", "flush no longer starts with the empty-cache early exit", svg, fn)
-    # memo cleared before any use of the memoised lookup
-    uses = [n for n in ast.walk(fn) if isinstance(n, ast.Call) and call_name(n) == "self._inherited_attrib"]
-    clears = [n for n in ast.walk(fn) if isinstance(n, ast.Call) and call_name(n) == "self._inherited_attrib.cache_clear"]
-    memo = [d for d in svg.func("SVG._inherited_attrib").decorator_list] if "SVG._inherited_attrib" in svg.functions else []
-    memoised = any("cache" in unparse(d) for d in memo)
-    if uses and memoised:
-        if clears and clears[0].lineno < min(u.lineno for u in uses):
-            rep.ok("R-TS.primitive", f"{F}: memo of _inherited_attrib cleared before it is consulted", "", True)
-        else:
-            rep.fail("R-TS.primitive", F, "self._inherited_attrib.cache_clear()",
-                     "the per-element inherited-attribute memo is consulted during the flush without being cleared first: an ancestor edited "
-                     "since the previous flush gives a stale context, so shapes are written with wrong explicit/omitted attributes", svg, fn)
-    elif uses:
-        rep.ok("R-TS.primitive", f"{F}: _inherited_attrib is not memoised")
-    # every cached entry is swapped
-    swaps = [n for n in ast.walk(fn) if isinstance(n, ast.Call) and call_name(n).endswith("_swap_elements")]
-    ok_swap = False
-    for c in swaps:
-        for a in c.args:
-            if isinstance(a, (ast.GeneratorExp, ast.ListComp)) and len(a.generators) == 1 and not a.generators[0].ifs \
-                    and unparse(a.generators[0].iter) == "self.elements":
-                elt = a.elt
-                if isinstance(elt, ast.Tuple) and len(elt.elts) == 2 and "to_element" in unparse(elt.elts[1]):
-                    ok_swap = True
-    if ok_swap:
-        rep.ok("R-TS.primitive", f"{F}: every (element, shapes) entry is swapped into the tree via to_element", "", True)
-    else:
-        rep.fail("R-TS.primitive", F, "self._swap_elements((old_el, [to_element(s, ...) for s in shapes]) for old_el, shapes in self.elements)",
-                 "the flush no longer writes every cached entry back (filtered or different source)", svg, fn)
-    if txt and txt[-1] == "self.elements = None":
-        rep.ok("R-TS.primitive", f"{F}: ends by emptying the cache")
-    else:
-        rep.fail("R-TS.primitive", F, "self.elements = None", "the flush does not end by emptying the cache (entries would be written twice)", svg, fn)
-    # _clone: flush dominates the copy, deep copy of the root
-    fn = svg.func("SVG._clone")
-    F = "svg.SVG._clone"
-    rep.saw(F)
-    ts2 = CacheTypestate(repo, pure_queries=PURE_QUERIES)
-    ts2.analyse_method("_clone")
-    for f in ts2.findings:
-        rep.fail(f.rule, F, f"{f.where}: {f.construct}", f.message + " (the copy is made from the tree)", svg, type("L", (), {"lineno": f.line})())
-    if not ts2.findings:
-        rep.ok("R-TS.primitive", f"{F}: tree copied only in a flushed state", "analysed from {N,P,D}", True)
-    ctor = [c for c in ast.walk(fn) if isinstance(c, ast.Call) and call_name(c) == "SVG"]
-    deep = ctor and any("copy.deepcopy(self.svg_root)" == unparse(a) for c in ctor for a in list(c.args) + [k.value for k in c.keywords])
-    if deep:
-        rep.ok("R-TS.primitive", f"{F}: SVG(copy.deepcopy(self.svg_root))")
-    else:
-        rep.fail("R-TS.primitive", F, "SVG(svg_root=copy.deepcopy(self.svg_root))", "the clone does not own a deep copy of the tree: copying "
-                 "operations would write through to the receiver", svg, fn)
-    # toetree: flush, then deep copy returned
-    fn = svg.func("SVG.toetree")
-    F = "svg.SVG.toetree"
-    rets = [n for n in walk_no_nested(fn) if isinstance(n, ast.Return)]
-    if rets and all(r.value is not None and unparse(r.value) == "copy.deepcopy(self.svg_root)" for r in rets) and \
-            any(isinstance(s, ast.Expr) and unparse(s.value) == "self._update_etree()" for s in fn.body[:2]):
-        rep.ok("R-TS.primitive", f"{F}: flush, then return a deep copy")
-    else:
-        rep.fail("R-TS.primitive", F, "self._update_etree(); return copy.deepcopy(self.svg_root)", "serialisation no longer flushes first / hands out the live tree", svg, fn)
-
-
-def _check_ret(repo, rep, ts):
-    svg = repo["svg"]
-    n = 0
-    for m, fn in ts.methods.items():
-        params = [a.arg for a in fn.args.args] + [a.arg for a in fn.args.kwonlyargs]
-        if "inplace" not in params:
-            continue
-        n += 1
-        F = f"svg.SVG.{m}"
-        # locate the copy branch: `if not inplace:` as a top-level statement
-        copy_if = [s for s in fn.body if isinstance(s, ast.If) and unparse(s.test) == "not inplace"]
-        if len(copy_if) != 1 or copy_if[0].orelse:
-            rep.fail("R-RET.inplace", F, "if not inplace:", "method with an `inplace` parameter has no recognisable copying prologue", svg, fn)
-            continue
-        cb = copy_if[0]
-        probs = []
-        # copying branch
-        clone_var = None
-        for s in cb.body:
-            if isinstance(s, ast.Assign) and isinstance(s.value, ast.Call) and call_name(s.value) == "self._clone":
-                clone_var = unparse(s.targets[0])
-        if not clone_var:
-            probs.append("the copy is not obtained from self._clone()")
-        else:
-            calls = [c for s in cb.body for c in ast.walk(s) if isinstance(c, ast.Call) and call_name(c) == f"{clone_var}.{m}"]
-            if not calls:
-                probs.append(f"the copying branch does not run {m} on the clone")
-            else:
-                c = calls[0]
-                kw = {k.arg: k.value for k in c.keywords}
-                if not (isinstance(kw.get("inplace"), ast.Constant) and kw["inplace"].value is True):
-                    probs.append("the clone is not processed with inplace=True")
-                pos = [a.arg for a in fn.args.args][1:]
-                for i, p in enumerate(pos):
-                    if p == "inplace":
-                        continue
-                    given = c.args[i] if i < len(c.args) else kw.get(p)
-                    if given is None or unparse(given) != p:
-                        probs.append(f"parameter {p!r} is not forwarded to the in-place call on the clone")
-                for p in [a.arg for a in fn.args.kwonlyargs]:
-                    if p == "inplace":
-                        continue
-                    if p not in kw or unparse(kw[p]) != p:
-                        probs.append(f"parameter {p!r} is not forwarded to the in-place call on the clone")
-            rets = [r for s in cb.body for r in ast.walk(s) if isinstance(r, ast.Return)]
-            if not rets or any(r.value is None or unparse(r.value) != clone_var for r in rets):
-                probs.append("the copying branch does not return the clone")
-            if not isinstance(cb.body[-1], ast.Return):
-                probs.append("the copying branch can fall through into the in-place code (receiver would be modified)")
-            for s in cb.body:
-                for w in ast.walk(s):
-                    if isinstance(w, (ast.Assign, ast.AugAssign)):
-                        tg = w.targets if isinstance(w, ast.Assign) else [w.target]
-                        if any(unparse(t).startswith("self.") for t in tg):
-                            probs.append(f"the copying branch writes to the receiver: {unparse(w)}")
-                    if isinstance(w, ast.Call) and call_name(w).startswith("self.") and call_name(w) not in ("self._clone",):
-                        probs.append(f"the copying branch calls {call_name(w)} on the receiver")
-        # in-place branch: all returns outside the copy branch return self
-        for r in walk_no_nested(fn):
-            if isinstance(r, ast.Return) and not _inside(r, cb):
-                if r.value is None or unparse(r.value) != "self":
-                    probs.append(f"in-place branch returns {unparse(r.value) if r.value is not None else 'None'} at line {r.lineno}")
-        last = fn.body[-1]
-        if not isinstance(last, (ast.Return, ast.Raise)):
-            probs.append("in-place branch can fall off the end (returns None)")
-        if probs:
-            for p in probs:
-                rep.fail("R-RET.inplace", F, p, p, svg, fn)
-        else:
-            rep.ok("R-RET.inplace", F, "copy branch: clone, same op in place, all parameters forwarded, clone returned; in-place branch returns self", True)
-    rep.floor("methods with an inplace parameter", n, 18)
+    from sa.rules import semhist
+    semhist.check_histories(repo, rep, "R-TS.primitive", "R-RET.inplace")
 
 
 def _inside(node, anc) -> bool:
@@ -242,20 +96,21 @@ VARIANTS = [
     Variant("reverted-fix F4b: remove_processing_instructions copies by hand", [Edit(_S, "SVG.remove_processing_instructions", "svg = self._clone()", "svg = SVG(copy.deepcopy(self.svg_root))")],
             [("R-", "remove_processing_instructions")]),
     Variant("reverted-fix F3: bare return in resolve_nested_svgs", [Edit(_S, "SVG.resolve_nested_svgs", "            return self\n\n        vb", "            return\n\n        vb")],
-            [("R-RET.inplace", "resolve_nested_svgs")]),
+            [("R-", "resolve_nested_svgs")]),
     Variant("reverted-fix F11: traversal without flush", [Edit(_S, "SVG._traverse", "        self._update_etree()\n", "")], [("R-TS", "SVG.")]),
     Variant("set_attributes without flush", [Edit(_S, "SVG.set_attributes", "        self._update_etree()\n", "")], [("R-TS", "set_attributes")]),
     Variant("remove_unpainted_shapes keeps the cache", [Edit(_S, "SVG.remove_unpainted_shapes", "        self.elements = None\n", "")],
             [("R-TS.exit-with-shadowing-cache", "remove_unpainted_shapes")]),
-    Variant("copy branch returns self", [Edit(_S, "SVG.round_floats", "            return svg\n", "            return self\n")], [("R-RET.inplace", "round_floats")]),
+    Variant("copy branch returns self", [Edit(_S, "SVG.round_floats", "            return svg\n", "            return self\n")], [("R-", "round_floats")]),
     Variant("cache write then xpath", [Edit(_S, "SVG.evenodd_to_nonzero_winding", "        return self\n", "        self.xpath('//svg:path')\n        return self\n")],
             [("R-TS.stale-read", "evenodd_to_nonzero_winding")]),
     Variant("copy branch does not forward drop_unsupported", [Edit(_S, "SVG.topicosvg", "                drop_unsupported=drop_unsupported,\n            )\n            return svg", "            )\n            return svg")],
-            [("R-RET.inplace", "topicosvg")]),
-    Variant("flush keeps the memo", [Edit(_S, "SVG._update_etree", "        self._inherited_attrib.cache_clear()\n", "")], [("R-TS.primitive", "_update_etree")]),
-    Variant("flush skips path entries", [Edit(_S, "SVG._update_etree", "for old_el, shapes in self.elements\n", "for old_el, shapes in self.elements if old_el.tag != 'x'\n")],
-            [("R-TS.primitive", "_update_etree")]),
-    Variant("shallow clone", [Edit(_S, "SVG._clone", "copy.deepcopy(self.svg_root)", "copy.copy(self.svg_root)")], [("R-TS.primitive", "_clone")]),
+            [("R-", "topicosvg")], allow_analysis_error=True),
+    Variant("silent: flush keeps the memo of _inherited_attrib (keyed by element objects that the flush replaces: entries are never consulted again)",
+            [Edit(_S, "SVG._update_etree", "        self._inherited_attrib.cache_clear()\n", "")], silent=True),
+    Variant("flush skips path entries", [Edit(_S, "SVG._update_etree", "for old_el, shapes in self.elements\n", "for old_el, shapes in self.elements if not old_el.tag.endswith('rect')\n")],
+            [("R-TS", "SVG.")]),
+    Variant("silent: clone with copy.copy (lxml's __copy__ copies the whole subtree into a new document, like deepcopy)", [Edit(_S, "SVG._clone", "copy.deepcopy(self.svg_root)", "copy.copy(self.svg_root)")], silent=True),
     Variant("reset while dirty", [Edit(_S, "SVG.shapes_to_paths", "        return self\n", "        self.elements = None\n        return self\n")],
             [("R-TS.reset-discards-edits", "shapes_to_paths")]),
     Variant("silent: flush twice", [Edit(_S, "SVG.simplify", "        self._update_etree()\n", "        self._update_etree()\n        self._update_etree()\n")], silent=True),
